@@ -429,7 +429,7 @@ func (r *c25SrvRig) update(rm *c25Remote, pi, v int, withdraw bool) []byte {
 	pfx := c25SrvPfxs[pi%len(c25SrvPfxs)]
 	u := &packet.BGPUpdate{}
 	if rm.cfg.v6 && v%2 == 1 {
-		// multiprotocol IPv6: MP_UNREACH_NLRI, MP_REACH_NLRI, or (v = 5) both in one UPDATE
+		// multiprotocol IPv6: MP_UNREACH_NLRI, MP_REACH_NLRI, or (v = 1, 5) both in one UPDATE
 		p6 := c25SrvPfxs6[pi%len(c25SrvPfxs6)]
 		other := c25SrvPfxs6[(pi+1)%len(c25SrvPfxs6)]
 		var first, last *packet.PathAttribute
@@ -441,7 +441,7 @@ func (r *c25SrvRig) update(rm *c25Remote, pi, v int, withdraw bool) []byte {
 			}
 			last = pa
 		}
-		if withdraw || v == 5 {
+		if withdraw || v%4 == 1 {
 			wp := p6
 			if !withdraw {
 				wp = other
@@ -689,12 +689,16 @@ func (r *c25SrvRig) exec(op c25SrvOp) string {
 		return "api_metrics"
 	case c25ADumpIn:
 		defer r.markAPI()()
-		afi := uint16(packet.AFIIPv4)
+		afis := []uint16{packet.AFIIPv4}
 		nonEmpty6 := false
-		if rm.cfg.v6 && op.v%2 == 1 {
-			afi = packet.AFIIPv6
+		if rm.cfg.v6 {
+			afis = []uint16{packet.AFIIPv6, packet.AFIIPv4}
 		}
-		if rib := r.srv.GetRIBIn(r.v, pip, afi, packet.SAFIUnicast); rib != nil {
+		for _, afi := range afis {
+			rib := r.srv.GetRIBIn(r.v, pip, afi, packet.SAFIUnicast)
+			if rib == nil {
+				continue
+			}
 			// what the RIS / gRPC API readers do; repeated so that a reader is likely to be active while the
 			// session stores a new path
 			for k := 0; k < 4; k++ {
